@@ -11,6 +11,7 @@ XSMatch(obs, x) == obs.ok /\ obs.m = x.m /\ obs.e = x.e
 XSGt(x, thr, observed) == DSign(DAdd(x, DNeg(thr))) > 0
 XPIn(j) == [n |-> j.n]
 XCanon(n, t) == t
+XTainted(t) == \E k \in 1..Len(t.v) : IsHuge(t.v[k])
 XRec == ndJsonDeserialize(IOEnv.TRACE)
 
 VARIABLES l, S, dig, skip, lastcmp, stats
@@ -18,5 +19,5 @@ VARIABLES l, S, dig, skip, lastcmp, stats
 INSTANCE TraceSpec WITH SAdd <- DAdd, SMul <- DMul, SNeg <- DNeg, SDiv <- DDiv, SFn <- DFn,
                         SPow <- DPow, SDPow <- DDPow, SZero <- DZero, SOne <- DOne,
                         TIn <- XTIn, TMatch <- XTMatch, SIn <- XSIn, SMatch <- XSMatch, SGt <- XSGt,
-                        PIn <- XPIn, Canon <- XCanon, Exact <- TRUE, Rec <- XRec
+                        PIn <- XPIn, Canon <- XCanon, Tainted <- XTainted, Exact <- TRUE, Rec <- XRec
 =============================================================================
